@@ -105,7 +105,7 @@ def build(name, tbox_sources, harness_sources, flavour="asan", extra_flags=(), l
 # ------------------------------------------------------------------------------------------------
 def _tlc_cmd(tla, cfg, metadir, workers, extra, jvm):
     return (["java", "-XX:+UseParallelGC"] + list(jvm) + ["-cp", TLA_CP, "tlc2.TLC", "-workers", str(workers),
-            "-metadir", metadir, "-config", cfg] + list(extra) + [tla])
+            "-metadir", metadir, "-noGenerateSpecTE", "-config", cfg] + list(extra) + [tla])
 
 
 def _parse_tlc(out):
@@ -381,7 +381,7 @@ def load_known(pid):
 SAN_ENV = {
     "ASAN_OPTIONS": "detect_leaks=0:abort_on_error=0:exitcode=99:allocator_may_return_null=1",
     "UBSAN_OPTIONS": "print_stacktrace=1:halt_on_error=1:exitcode=99",
-    "TSAN_OPTIONS": "exitcode=98:halt_on_error=1:second_deadlock_stack=1",
+    "TSAN_OPTIONS": "exitcode=98:halt_on_error=1:second_deadlock_stack=1:suppressions=" + os.path.join(HARNESS, "common", "tsan.supp"),
 }
 
 
